@@ -340,8 +340,14 @@ void cpp_mssm(std::ostream& out, const Par& p, bool force, bool slha)
    }
    out << " setup=" << setup;
    if (setup == "OK") {
-      out << " amu=" << ev([&] { return calculate_amu_1loop(model) + calculate_amu_2loop(model); })
-          << " unc=" << ev([&] { return calculate_uncertainty_amu_2loop(model); });
+      // nonres=1: the functions without tan(beta) resummation (they rebuild the spectrum with tree-level Yukawas)
+      if (P(p, "nonres") != 0) {
+         out << " amu=" << ev([&] { return calculate_amu_1loop_non_tan_beta_resummed(model)
+                                           + calculate_amu_2loop_non_tan_beta_resummed(model); });
+      } else {
+         out << " amu=" << ev([&] { return calculate_amu_1loop(model) + calculate_amu_2loop(model); });
+      }
+      out << " unc=" << ev([&] { return calculate_uncertainty_amu_2loop(model); });
    } else {
       out << " amu=NA unc=NA";
    }
@@ -396,8 +402,13 @@ void c_mssm(std::ostream& out, const Par& p, bool slha)
    out << " setup=" << (err == gm2calc_NoError ? "OK" : "ERR") << " code=" << static_cast<int>(err)
        << " codestr=" << esc(gm2calc_error_str(err));
    if (err == gm2calc_NoError) {
-      out << " amu=" << hexd(gm2calc_mssmnofv_calculate_amu_1loop(m) + gm2calc_mssmnofv_calculate_amu_2loop(m))
-          << " unc=" << hexd(gm2calc_mssmnofv_calculate_uncertainty_amu_2loop(m));
+      if (P(p, "nonres") != 0) {
+         out << " amu=" << hexd(gm2calc_mssmnofv_calculate_amu_1loop_non_tan_beta_resummed(m)
+                                + gm2calc_mssmnofv_calculate_amu_2loop_non_tan_beta_resummed(m));
+      } else {
+         out << " amu=" << hexd(gm2calc_mssmnofv_calculate_amu_1loop(m) + gm2calc_mssmnofv_calculate_amu_2loop(m));
+      }
+      out << " unc=" << hexd(gm2calc_mssmnofv_calculate_uncertainty_amu_2loop(m));
    } else {
       out << " amu=NA unc=NA";
    }
